@@ -7,6 +7,7 @@
 //! Job kinds (`k`):
 //!   str      {id, src}                                  -> build_str(src)
 //!   file     {id, root, files{rel:text}, cwd, main, paths[]} -> materialise, chdir, build_file
+//!   trace    {id, src | (root, cwd, main, paths)}       -> build with hooks on: result + events of the passes
 //!   hex      {id, which, n, seed, path}                 -> fill image with Img(seed,i), write_*_hex(path)
 //!   seq      {id, srcs[]}                               -> build each source in order, same thread
 //!   threads  {id, srcs[], reps}                         -> one thread per source, unsynchronised, reps builds each
@@ -68,6 +69,22 @@ fn run_str(src: &str) -> Value {
     result_json(catch_unwind(AssertUnwindSafe(|| build_str(src))))
 }
 
+/// build_str with the verification hooks switched on: the result plus the events the passes emitted.
+fn run_trace(j: &Value) -> Value {
+    avra_lib::verif::start();
+    let mut r = if j.get("main").is_some() {
+        run_file(j)
+    } else {
+        run_str(&s(j, "src"))
+    };
+    let events: Vec<Value> = avra_lib::verif::take()
+        .iter()
+        .map(|e| serde_json::from_str(e).unwrap_or(json!({"ev": "unparsable", "text": e})))
+        .collect();
+    r["events"] = Value::Array(events);
+    r
+}
+
 /// Same as run_str but reports image lengths instead of contents (for multi-megabyte images).
 fn run_str_lens(src: &str) -> Value {
     let mut r = run_str(src);
@@ -85,7 +102,19 @@ fn run_str_lens(src: &str) -> Value {
 /// The specification's image pattern (IHex.tla, Img): every byte value occurs, and the
 /// pattern differs across 256-byte and 64 KiB blocks so that a shifted block is visible.
 fn img(seed: u64, i: u64) -> u8 {
-    (((i % 256) * 7 + seed * 13 + ((i / 256) % 256) * 3 + (i / 65536) * 5) % 256) as u8
+    let pattern = (((i % 256) * 7 + seed * 13 + ((i / 256) % 256) * 3 + (i / 65536) * 5) % 256) as u8;
+    match seed {
+        7 => 0xff,
+        8 => 0x00,
+        9 => {
+            if (i / 16) % 3 == 1 {
+                0xff
+            } else {
+                pattern
+            }
+        }
+        _ => pattern,
+    }
 }
 
 fn s(j: &Value, k: &str) -> String {
@@ -131,6 +160,12 @@ fn run_hex(j: &Value) -> Value {
     let which = s(j, "which");
     let path = PathBuf::from(s(j, "path"));
     let image: Vec<u8> = (0..n).map(|i| img(seed, i)).collect();
+    let prefill = j.get("prefill").and_then(|v| v.as_u64()).unwrap_or(0);
+    if prefill > 0 {
+        // the path already holds an older, longer output
+        let old: String = (0..prefill).map(|_| ":10000000FFFFFFFFFFFFFFFFFFFFFFFFFFFFFFFF00\r\n").collect();
+        let _ = std::fs::write(&path, old);
+    }
     let mut br = BuildResult {
         code: vec![],
         eeprom: vec![],
@@ -430,6 +465,7 @@ fn main() {
                 }
             }
             "file" => run_file(&j),
+            "trace" => run_trace(&j),
             "hex" => run_hex(&j),
             "seq" => run_seq(&j),
             "threads" => run_threads(&j),
